@@ -18,7 +18,9 @@ Kinds == {"source", "ordinary", "multi", "down", "loop", "cut", "overlap"}
 \* rows_late: the last row ends after the chunk; rows_late_inner: an earlier row does (rows are sorted by start, not by end:
 \* Chunk.__init__ looks at the ends of the last 500 rows)
 \* sibling_label: a multi-output plugin returns, for one output, a chunk labelled as its other output
-Viols == {"wrong_dtype_bare", "wrong_dtype_chunk", "rows_early", "rows_late", "rows_late_inner", "wrong_label", "sibling_label", "overlap", "gap", "non_dict"}
+\* wrong_types_bare: a bare array with the declared field names and the declared item size, but another type in a field (float64 where
+\* int64 was declared): a different dtype all the same
+Viols == {"wrong_dtype_bare", "wrong_types_bare", "wrong_dtype_chunk", "rows_early", "rows_late", "rows_late_inner", "wrong_label", "sibling_label", "overlap", "gap", "non_dict"}
 Outside == {"rows_early", "rows_late", "rows_late_inner"}
 Positions == {"first", "middle", "last"}
 Procs == {"single_thread", "threaded_mailbox"}
@@ -27,7 +29,7 @@ Procs == {"single_thread", "threaded_mailbox"}
 Applicable(k, v) ==
   CASE v \in {"non_dict", "sibling_label"} -> k = "multi"
     [] v \in {"overlap", "gap"} -> k \in {"source", "down"}       \* only these choose their own chunk boundaries
-    [] v = "wrong_dtype_bare" -> k # "down"                        \* a down-chunking plugin can only yield chunks
+    [] v \in {"wrong_dtype_bare", "wrong_types_bare"} -> k # "down"                        \* a down-chunking plugin can only yield chunks
     [] OTHER -> TRUE
 
 \* how the violating output travels: as a bare array (wrapped by _fix_output) or wrapped in a Chunk by the plugin
@@ -52,7 +54,7 @@ UserChunkInit ==
   /\ pc = "produced" /\ Wrapped(kind, viol)
   /\ IF viol \in Outside THEN Reject("Chunk.__init__: data outside chunk")
      ELSE IF viol = "wrong_dtype_chunk" /\ Repaired THEN Reject("Chunk.__init__: dtype")
-     ELSE IF viol = "wrong_dtype_bare" THEN Pass("fixout")      \* a source returning a bare array
+     ELSE IF viol \in {"wrong_dtype_bare", "wrong_types_bare"} THEN Pass("fixout")      \* a source returning a bare array
      ELSE Pass("fixout")
 BareToFixOutput == pc = "produced" /\ ~Wrapped(kind, viol) /\ Pass("fixout")
 
@@ -61,9 +63,9 @@ FixOutput ==
   /\ IF kind = "down" THEN      \* DownChunkingPlugin._fix_output: only "is it a Chunk"
         IF viol = "wrong_label" /\ Repaired THEN Reject("DownChunkingPlugin._fix_output: data_type") ELSE Pass("continuity")
      ELSE IF viol = "non_dict" THEN Reject("_fix_output: multi-output must give a dict")
-     ELSE IF kind = "source" /\ viol = "wrong_dtype_bare" THEN Reject("_fix_output: plugins without dependencies must return chunks")
+     ELSE IF kind = "source" /\ viol \in {"wrong_dtype_bare", "wrong_types_bare"} THEN Reject("_fix_output: plugins without dependencies must return chunks")
      ELSE IF ~Wrapped(kind, viol) THEN     \* bare array: _check_dtype, then Plugin.chunk -> Chunk.__init__
-        IF viol = "wrong_dtype_bare" THEN Reject("_check_dtype")
+        IF viol \in {"wrong_dtype_bare", "wrong_types_bare"} THEN Reject("_check_dtype")
         ELSE IF viol \in Outside THEN Reject("Chunk.__init__: data outside chunk")
         ELSE Pass("continuity")
      ELSE IF viol \in {"wrong_label", "sibling_label"} THEN Reject("_fix_output: data_type")
